@@ -5,7 +5,8 @@
 (* without waiting for quiescence, so the two race on the real code).      *)
 (* Internal steps appear as "tau" lines and are ignored by the executor.   *)
 EXTENDS Session, TLCExt, Json, IOUtils
-CONSTANT Depth
+CONSTANTS Depth,
+          WtSet, RtSet    \* manager options drawn with the plan: write / read timeout in ms
 ASSUME TLCSet(2, 0)
 
 GenActs(s) ==
@@ -45,7 +46,12 @@ GenNext ==
   \/ /\ TLCGet("level") >= Depth - 1     \* marks the behaviour that is written out
      /\ UNCHANGED vars /\ last' = [op |-> "end"]
 
-GenSpec == Init /\ [][GenNext]_allvars
+GenInit ==
+  \E m \in MaxcSet : \E wt \in WtSet : \E rt \in RtSet :
+    /\ maxc = m /\ count = 0 /\ ss = [s \in Sess |-> NewS]
+    /\ last = [op |-> "init", maxc |-> m, wt |-> wt, rt |-> rt]
+
+GenSpec == GenInit /\ [][GenNext]_allvars
 
 Emit ==
   \/ TLCGet("level") < Depth \/ last.op # "end"
